@@ -88,9 +88,8 @@ func checkInt(i int64) Value {
 func checkFloat(f float64) Value {
 	// NaN and the infinities are ordinary IEEE values: both backends print them as NaN / Infinity /
 	// -Infinity and compare them by the IEEE rules (every ordering with NaN is false)
-	if f == 0 && math.Signbit(f) {
-		unspecified("negative zero")
-	}
+	// (negative zero is an ordinary value too: it equals zero and - as in JavaScript, which the Go
+	// backend has to agree with - prints as "0")
 	return F(f)
 }
 
